@@ -1345,6 +1345,8 @@ class UnitQuaternion(Quaternion):
         v = base.getvector(v, 3)
         base.isscalar(theta)
         theta = base.getunit(theta, unit)
+        if not base.iszerovec(v):
+            v = base.unitvec(v)  # rotation is about the direction of v, whatever its length
         return cls(s=math.cos(theta / 2), v=math.sin(theta / 2) * v, norm=False, check=False)
 
     @classmethod
